@@ -220,7 +220,8 @@ def _c08_objects(tier, seed):
     return p
 
 
-COMPOSITE["C08"] = [_c08_lists, _c08_queue, _c08_objects, (lambda tier, seed: props_fault.plans(tier, seed)[1])]   # + copies/additions failing half-way
+# + copies/additions failing half-way; + the AnyData boxes (C08 is anchored in anydata.h too: every held object destroyed exactly once, also the moved-from ones)
+COMPOSITE["C08"] = [_c08_lists, _c08_queue, _c08_objects, (lambda tier, seed: props_fault.plans(tier, seed)[1]), (lambda tier, seed: props_anydata.PLANS["C17"](tier, seed))]
 COMPOSITE["C20"] = [(lambda i: (lambda tier, seed: props_c20.plans(tier, seed)[i]))(i) for i in range(4)]
 COMPOSITE["C09"] = [(lambda i: (lambda tier, seed: props_fault.plans(tier, seed)[i]))(i) for i in range(7)]
 
